@@ -43,5 +43,6 @@ extern const hx_op ops_c09[];
 extern const hx_op ops_c01[];
 extern const hx_op ops_c18[];
 extern const hx_op ops_c17[];
+extern const hx_op ops_c20[];
 int hx_aead(const char *op, int argc, char **argv, FILE *o);  /* 1 = not an aead op */
 #endif
